@@ -10,6 +10,7 @@ import LinOp.C12.Model
 open LinOp LinOp.C12 LinOp.Parse
 
 structure Obj where
+  ko : Bool
   P : Profile
   n : Nat
   m : Nat
@@ -22,7 +23,12 @@ structure DState where
 def profileOf (s : String) : Profile :=
   if s = "base" then .base
   else if s = "sum" then .sum
+  else if s = "diag" then .diag
+  else if s = "chol" then .chol
   else .sum
+
+/-- Profiles for which only the key-set discipline is compared (primitive log and triangular flag are `*`). -/
+def keysOnly (s : String) : Bool := s = "diag" || s = "chol"
 
 def showArg : Arg → String
   | .none => "None"
@@ -52,6 +58,7 @@ def parseQuery (ws : List String) : Query × Bool :=   -- (query, logs are model
   match ws with
   | ["to_dense"] => (.toDense, true)
   | ["cholesky", u] => (.cholesky (u = "1"), true)
+  | ["hook_cholesky", u] => (.cholHook (u = "1"), true)
   | ["root", how, m] => (.root (mkCall how m), true)
   | ["rootinv", how, m] => (.rootInv (mkCall how m), true)
   | ["diagz", how, m] => (.diagz (mkCall how m), true)
@@ -68,7 +75,7 @@ def stepLine (s : DState) (line : String) : DState × String :=
   match words line with
   | ["new", p, n] =>
     match n.toNat? with
-    | some n => ({ stack := [⟨profileOf p, n, 1, ⟨[], 0, []⟩⟩], nextMat := 2 }, "ok")
+    | some n => ({ stack := [⟨keysOnly p, profileOf p, n, 1, ⟨[], 0, []⟩⟩], nextMat := 2 }, "ok")
     | none => bad
   | ["back"] =>
     match s.stack with
@@ -80,8 +87,8 @@ def stepLine (s : DState) (line : String) : DState × String :=
       let (q, lg) := parseQuery rest
       let r := runQuery o.P σ o.n o.m q { o.st with logs := [] }
       let o' := { o with st := r.1 }
-      let logs := if lg then (if r.1.logs.isEmpty then "-" else ",".intercalate r.1.logs) else "*"
-      let tri := match q, r.2 with
+      let logs := if o.ko then "*" else if lg then (if r.1.logs.isEmpty then "-" else ",".intercalate r.1.logs) else "*"
+      let tri := if o.ko then "*" else match q, r.2 with
         | .root _, .root _ true _ _ => "tri"
         | _, _ => "-"
       ({ s with stack := o' :: t }, showKeys r.1.cache ++ " ; " ++ logs ++ " ; " ++ tri)
@@ -98,7 +105,7 @@ def stepLine (s : DState) (line : String) : DState × String :=
           else if kind = "cat_rows" then catRows o.P σ o.n o.m m' { o.st with logs := [] }
           else (o.st, [])
         let o' := { o with st := st' }
-        let nw : Obj := ⟨profileOf p, n', m', ⟨nc, st'.run, []⟩⟩
+        let nw : Obj := ⟨keysOnly p, profileOf p, n', m', ⟨nc, st'.run, []⟩⟩
         ({ stack := nw :: o' :: t, nextMat := m' + 1 }, "P " ++ showKeys st'.cache ++ " ; N " ++ showKeys nc ++ " ; *")
     | _, _, _ => bad
   | _ => bad
